@@ -1,7 +1,11 @@
 package mon
 
 import (
+	"bytes"
 	"encoding/json"
+	"io"
+	"math/big"
+	"reflect"
 	"errors"
 	"fmt"
 	"math"
@@ -310,7 +314,7 @@ func HostileValues() []any {
 	var nilSlice []any
 	var nilMap map[string]any
 	i := 5
-	return []any{
+	return append([]any{
 		nil, true, "", "a", "é𝌆", "\xff\xfe", "a\x00b",
 		json.Number("1"), json.Number("1.5"), json.Number("-0"), json.Number("1e400"), json.Number("1e7000"), json.Number("1e-7000"), json.Number(""), json.Number("abc"), json.Number("NaN"), json.Number("Infinity"), json.Number("0x10"), json.Number("1_000"), json.Number(" 1"), json.Number("9223372036854775808"), json.Number("-9223372036854775809"), json.Number(strings.Repeat("9", 50)),
 		float64(1.5), float64(0), math.NaN(), math.Inf(1), math.Inf(-1), float64(9223372036854775808), float64(-9223372036854775808), math.MaxFloat64, math.SmallestNonzeroFloat64, math.Copysign(0, -1),
@@ -321,6 +325,43 @@ func HostileValues() []any {
 		nilSlice, nilMap, []any{}, map[string]any{}, []any{nil}, []any{json.Number("1"), "a"}, map[string]any{"k": nil},
 		[]any{[]any{nil, json.Number("1")}}, []any{[]any{"k"}}, []any{[]any{}}, []any{[]any{json.Number("1"), nil}}, []any{nil, "a"}, []any{[]any{"a", nil}, nil},
 		foreign{1}, &foreign{2}, &i, make(chan int), func() {}, []string{"a"}, map[int]any{1: 2}, time.Unix(0, 0), []byte("x"), map[string]string{"a": "b"}, []int{1}, errors.New("e"), uintptr(1), complex(1, 2), [2]any{1, 2}, struct{}{},
+	}, StdlibCarriers()...)
+}
+
+// nilStringer has methods that dereference the receiver: calling them on a typed nil panics.
+type nilStringer struct{ s string }
+
+func (n *nilStringer) String() string               { return n.s }
+func (n *nilStringer) Error() string                { return n.s }
+func (n *nilStringer) MarshalJSON() ([]byte, error) { return []byte(n.s), nil }
+func (n *nilStringer) MarshalText() ([]byte, error) { return []byte(n.s), nil }
+func (n *nilStringer) Read(p []byte) (int, error)   { return copy(p, n.s), io.EOF }
+
+// StdlibCarriers: values of standard-library (and the decimal package's) types that a library could
+// plausibly learn to understand one day - big numbers, raw JSON, pointers to scalars and containers,
+// readers, marshalers - each as a useful value, as a malformed one and as a typed nil.  Today they
+// are opaque foreign values; a commit that teaches the library about one of them must keep every
+// guarantee (no panic on the typed nil, static faults before the document is looked at, ...).
+func StdlibCarriers() []any {
+	jn := json.Number("2.5")
+	str := "s"
+	f := 1.5
+	i64 := int64(7)
+	b := true
+	dec := decimal128.MustParse("1.5")
+	arr := []any{json.Number("1"), "a"}
+	obj := map[string]any{"a": json.Number("1")}
+	var av any = "x"
+	raw := json.RawMessage(`{"a":1,"xs":[3,1,2]}`)
+	tm := time.Unix(0, 0)
+	return []any{
+		big.NewInt(5), (*big.Int)(nil), *big.NewInt(5), big.NewFloat(1.5), (*big.Float)(nil), big.NewRat(1, 3), (*big.Rat)(nil), new(big.Int).Lsh(big.NewInt(1), 200),
+		&jn, (*json.Number)(nil), raw, &raw, json.RawMessage(`{"a": `), json.RawMessage(`{"a":1} x`), json.RawMessage(``), json.RawMessage(nil), (*json.RawMessage)(nil), []byte(nil), []byte(`{"a": `), []byte(`[1,2]`),
+		&str, (*string)(nil), &f, (*float64)(nil), &i64, (*int64)(nil), (*int)(nil), &b, (*bool)(nil), &dec, (*decimal128.Decimal)(nil),
+		&arr, (*[]any)(nil), &obj, (*map[string]any)(nil), &av, (*any)(nil),
+		&tm, (*time.Time)(nil), time.Duration(5), bytes.NewBufferString(`{"a":1}`), (*bytes.Buffer)(nil), strings.NewReader(`{"a": `), (*strings.Reader)(nil), (*strings.Builder)(nil),
+		&nilStringer{"n"}, (*nilStringer)(nil), fmt.Stringer((*nilStringer)(nil)), error((*nilStringer)(nil)), json.Marshaler((*nilStringer)(nil)), io.Reader((*nilStringer)(nil)),
+		reflect.ValueOf(1), reflect.Value{}, []json.Number{"1", "x"}, map[string]json.Number{"a": "1"}, []float64(nil), []float64{1.5}, map[string]float64{"a": 1}, [][]any{{1}}, []map[string]any{{"a": 1}}, map[string][]any{"a": {1}},
 	}
 }
 
